@@ -91,6 +91,8 @@ func init() {
 				{Scenario: "c11_burst", Params: mustJSON(BurstParams{Membership: "static", MaxN: 1, HoldWait: true}), Bound: 0, Shards: 2},
 				{Scenario: "c11_burst", Params: mustJSON(BurstParams{Membership: "dynamic", MaxN: 1, YieldLog: true}), Bound: 1, Shards: 8, Note: "log calls are scheduling points; immediate re-open (dynamic membership): the re-open thread against the tail of the Rebalance() call that armed it, all single deviations (bracketing of the lifecycle callbacks)"},
 				{Scenario: "c11_burst", Params: mustJSON(BurstParams{Membership: "static", MaxN: 2, Tight: true}), Bound: 1, Shards: 8, Note: "two notifications at the same instant (bus + GET /rebalance), all single deviations"},
+				{Scenario: "c02_sessions", Params: mustJSON(SessionsParams{Backend: "file"}), Bound: 0, Shards: 2, Note: "file metadata across rebalances that shrink and grow the range again: vBuckets that come back resume from what was stored for them"},
+				{Scenario: "c12_duringopen", Params: mustJSON(struct{}{}), Bound: 1, Shards: 4, Note: "a transient stream end while the Open() that ends a rebalance still waits for another vBucket: the vBucket is re-opened, the re-opened session covers the whole new range"},
 				{Scenario: "c11_collections", Params: mustJSON(struct{}{}), Bound: 0, Note: "collection filter next to a busy foreign collection: a stored position reached through a seqno-advanced event lies beyond the streamed collection's own high seqno; the re-open resumes from it"},
 				{Scenario: "c12_afterrebalance", Params: mustJSON(AfterRebParams{ReopenPending: true}), Bound: 0, Shards: 4, Note: "a re-open retry of an earlier transient end sleeps through the whole (immediate) rebalance: every vBucket is open exactly once afterwards, the client runs on"},
 				{Scenario: "c12_afterrebalance", Params: mustJSON(AfterRebParams{OldServer: true}), Bound: 0, Shards: 4, Note: "two rebalances in a row against a server below 5.5.0 (serial close): the second one completes"},
